@@ -1,5 +1,6 @@
 import HapModel.Model.GenoIO
 import HapModel.Model.Subset
+import HapModel.Model.PgenMatrix
 /-!
 # C08 — Restricted reads equal full read + subset, for VCF and PGEN alike
 
@@ -74,5 +75,33 @@ theorem subset_requested_order (c : Subset.Contents) (rs cs : List String) :
 example : (Subset.run (Subset.fresh ⟨["a", "b"], ["v"], [[1], [2]]⟩)
     [.subset (some ["b", "a"]) none true, .subset (some ["a"]) none false]).2 =
     [some ⟨["b", "a"], ["v"], [[2], [1]]⟩, some ⟨["a"], ["v"], [[1]]⟩] := by decide
+
+/-! ### The matrix of a restricted PGEN read (Model/PgenMatrix.readSel): rows of `.psam`, rows of `.pvar`, chunks of positions -/
+
+/-- **a restricted PGEN read is the selection, whatever the chunk size**: the cell of selected sample `s` and selected variant
+    row `v`, in the order of the selection – no chunk boundary drops, repeats or shifts a variant -/
+theorem pgen_restricted_read_is_the_selection (k : Nat) (hk : 0 < k) (file : List (List Cell)) (sidx vidx : List Nat) :
+    PgenMatrix.readSel k hk file sidx vidx
+      = sidx.map (fun s => vidx.map (fun v => (file.getD v []).getD s PgenMatrix.dflt)) :=
+  PgenMatrix.readSel_eq k hk file sidx vidx
+
+/-- **restricted read = full read + subset, cell by cell**, for any chunk size of either read -/
+theorem pgen_restricted_read_eq_full_read_subset (k k' : Nat) (hk : 0 < k) (hk' : 0 < k') (file : List (List Cell))
+    (ns nv : Nat) (sidx vidx : List Nat) (hs : ∀ s ∈ sidx, s < ns) (hv : ∀ v ∈ vidx, v < nv) :
+    PgenMatrix.readSel k hk file sidx vidx
+      = sidx.map (fun s => vidx.map (fun v => PgenMatrix.cell (PgenMatrix.read k' hk' file ns nv) s v)) :=
+  PgenMatrix.readSel_eq_subset_of_read k k' hk hk' file ns nv sidx vidx hs hv
+
+/-- two chunk sizes give the same matrix -/
+theorem pgen_restricted_read_chunk_irrelevant (k₁ k₂ : Nat) (h₁ : 0 < k₁) (h₂ : 0 < k₂) (file : List (List Cell))
+    (sidx vidx : List Nat) : PgenMatrix.readSel k₁ h₁ file sidx vidx = PgenMatrix.readSel k₂ h₂ file sidx vidx :=
+  PgenMatrix.readSel_chunk_irrelevant k₁ k₂ h₁ h₂ file sidx vidx
+
+/-- non-vacuity: five variant rows, rows 4, 1, 3 selected for samples 1, 0 in chunks of two -/
+example : PgenMatrix.readSel 2 (by decide)
+    [[⟨0,0,true⟩, ⟨1,0,true⟩], [⟨0,1,true⟩, ⟨1,1,true⟩], [⟨0,0,true⟩, ⟨0,0,true⟩], [⟨2,1,true⟩, ⟨0,2,true⟩], [⟨1,2,false⟩, ⟨0,1,false⟩]]
+    [1, 0] [4, 1, 3]
+    = [[⟨0,1,false⟩, ⟨1,1,true⟩, ⟨0,2,true⟩], [⟨1,2,false⟩, ⟨0,1,true⟩, ⟨2,1,true⟩]] := by
+  rw [PgenMatrix.readSel_eq]; rfl
 
 end C08
